@@ -212,6 +212,85 @@ def range_docs(rng, n):
     return cases
 
 
+RANGE_TYPES = ('date', 'month', 'week', 'time', 'datetime-local', 'number', 'range')
+
+
+def range_expect(attrs):
+    """What HTML (and the property) say about one <input> of an HTML document, from its attributes alone:
+    'in' / 'out' / None (neither).  Validity comes from the independent calendar oracle; comparison is the
+    tuple / numeric order; for time a min greater than max is a range that wraps around midnight."""
+    d = {}
+    for k, v in attrs:
+        d.setdefault(k.lower(), v)
+    ty = d.get('type', '').lower() if 'type' in d else None
+    if ty not in RANGE_TYPES:
+        return None
+    mn = oracle(ty, d['min']) if 'min' in d else None
+    mx = oracle(ty, d['max']) if 'max' in d else None
+    if mn is None and mx is None:
+        return None
+    val = oracle(ty, d['value']) if 'value' in d else None
+    if val is None:
+        return 'in'                      # an invalid or missing value is never out of range
+    if ty == 'time' and mn is not None and mx is not None and mn > mx:
+        return 'out' if (val < mn and val > mx) else 'in'
+    if mn is not None and val < mn:
+        return 'out'
+    if mx is not None and val > mx:
+        return 'out'
+    return 'in'
+
+
+def range_oracle_sweep(rng, n):
+    """Documents of range-typed inputs (a third of them time inputs with min > max) checked against `range_expect`
+    on the real library: select(':in-range') / select(':out-of-range') must be exactly the expected controls."""
+    import bs4
+    import soupsieve as sv
+    pools = {'date': ['2020-01-01', '2020-12-31', '2019-02-29', '2024-02-29', '2020-06-15', 'x', '', '2020-01-01\n'],
+             'month': ['2020-01', '2020-12', '2020-13', '2021-06', '0001-01'],
+             'week': ['2020-W01', '2020-W52', '2021-W10', '2020-W00', '2015-W20'],
+             'time': ['00:00', '08:30', '12:00', '23:59', '24:00', '22:00', '03:15', '21:59', '08:31', ''],
+             'datetime-local': ['2020-01-01T00:00', '2020-06-15T12:30', '2020-06-15T24:00', '2021-01-01T00:00'],
+             'number': ['0', '5', '-5', '2.5', '1e1', '10', 'x', '5.', '.5', '-0'],
+             'range': ['0', '5', '10', '7.5', '-1']}
+    bad, nctl, nwrap, nout = [], 0, 0, 0
+    for _ in range(n):
+        ctrls = []
+        for _ in range(rng.randint(1, 6)):
+            ty = rng.choice(list(pools) + ['time'] * 3)
+            pool = pools[ty]
+            attrs = [('type', rng.choice([ty, ty, ty.upper(), ty.capitalize()]))]
+            if ty == 'time' and rng.random() < 0.6:
+                a, b = sorted(rng.sample(['00:00', '03:15', '08:30', '12:00', '21:59', '22:00', '23:59'], 2))
+                attrs += [('min', b), ('max', a), ('value', rng.choice(pool))]      # min > max: wraps around midnight
+            else:
+                for a in ('min', 'max', 'value'):
+                    if rng.random() < 0.7:
+                        attrs.append((a, rng.choice(pool)))
+            rng.shuffle(attrs)
+            ctrls.append(attrs)
+        body = ''.join('<input id="c%d" %s>' % (i, ' '.join('%s="%s"' % (k, v.replace('\n', '&#10;')) for k, v in a))
+                       for i, a in enumerate(ctrls))
+        parser = rng.choice(['html.parser', 'lxml', 'html5lib'])
+        soup = bs4.BeautifulSoup('<html><body><form>' + body + '</form></body></html>', parser)
+        got_in = {e['id'] for e in sv.select(':in-range', soup)}
+        got_out = {e['id'] for e in sv.select(':out-of-range', soup)}
+        for i, a in enumerate(ctrls):
+            exp = range_expect(a)
+            nctl += 1
+            d = dict((k, v) for k, v in a)
+            if d['type'].lower() == 'time' and 'min' in d and 'max' in d and exp is not None and \
+                    oracle('time', d['min']) and oracle('time', d['max']) and oracle('time', d['min']) > oracle('time', d['max']):
+                nwrap += 1
+            nout += exp == 'out'
+            cid = 'c%d' % i
+            got = 'out' if cid in got_out else 'in' if cid in got_in else None
+            if (cid in got_in and cid in got_out) or got != exp:
+                bad.append({'markup_input': dict(a), 'parser': parser, 'expected': exp, 'in_range': cid in got_in,
+                            'out_of_range': cid in got_out})
+    return bad, {'range_oracle_controls': nctl, 'range_oracle_time_wrap_controls': nwrap, 'range_oracle_expected_out': nout}
+
+
 def run(chk):
     proof_ok = framework.lean_pipeline(chk, SOURCES)
     driver_ok = proof_ok or chk.build(['svdriver'])[0]
@@ -266,6 +345,11 @@ def run(chk):
         for rec in matchcorr.run_cases(cases):
             if not rec['agree']:
                 doc_bad.append({'case': rec['case'], 'py': rec['py'], 'model': rec['lean']})
+    range_bad, range_cov = range_oracle_sweep(random.Random(chk.seed ^ 0x18), 400 if quick else 12000)
+    chk.coverage.update(range_cov)
+    for i, bad in enumerate(range_bad[:4]):
+        chk.violation(f'range{i}', {'what': ':in-range / :out-of-range differ from the HTML range rules (independent oracle: '
+                                    'calendar validity, tuple/numeric order, time ranges wrapping midnight)', **bad}, concrete=True)
     chk.samples = [{'type': t, 'value': s, 'py': repr(v)} for (t, s), v in list(zip(strings, pyv))[:4]] + \
                   [{'type': t, 'value': s, 'py': repr(v)} for (t, s), v in zip(strings, pyv) if v is not None][:4]
     chk.coverage.update({'strings': len(strings), 'valid_strings': len(valid), 'py_vs_oracle_mismatches': len(py_bad),
@@ -282,7 +366,7 @@ def run(chk):
         for i, bad in enumerate(corr_bad[:3]):
             chk.violation(f'corr{i}', {'what': 'PY differs from the Lean model; the calendar oracle agrees with PY',
                                        'correspondence': 'Inputs.parse_value ≡ Inputs.parseValue', **bad}, concrete=False)
-    if not proof_ok and not (py_bad or corr_bad or order_bad or doc_bad):
+    if not proof_ok and not (py_bad or corr_bad or order_bad or doc_bad or range_bad):
         chk.violation('proof', {'what': 'proof obligation no longer checks; the sweep found no failing input',
                                 'theorem_or_correspondence': 'SoupVerif.Properties.C18', 'detail': chk.notes.get('proof_broken')}, concrete=False)
     return chk.finish(rule=RULE, evaluations=len(strings) + len(order_lines) + ndocs, distinct=len(valid))
@@ -290,6 +374,21 @@ def run(chk):
 
 def replay(chk, path):
     data = json.load(open(path))
+    if 'markup_input' in data:
+        import bs4
+        import soupsieve as sv
+        a = list(data['markup_input'].items())
+        soup = bs4.BeautifulSoup('<html><body><form><input id="c" %s></form></body></html>' %
+                                 ' '.join('%s="%s"' % (k, v.replace('\n', '&#10;')) for k, v in a), data.get('parser', 'html.parser'))
+        el = soup.find(id='c')
+        got_in, got_out = sv.match(':in-range', el), sv.match(':out-of-range', el)
+        exp = range_expect(a)
+        got = 'out' if got_out else 'in' if got_in else None
+        print(json.dumps({'expected': exp, 'in_range': got_in, 'out_of_range': got_out}))
+        if (got_in and got_out) or got != exp:
+            print(f'VIOLATION property={PID} replay={path}')
+            return 1
+        return 0
     if 'type' in data and 'value' in data:
         py = cm.Inputs.parse_value(data['type'], data['value'])
         exp = oracle(data['type'], data['value'])
